@@ -51,11 +51,54 @@ CLAIMED = {
              "128-bit deposits/reserves and all tolerances; tied to the real guard by boundary-searched differential cases.  System level "
              "(reserves net of the native deposit) via the world family.",
         design_ref="DESIGN.md section 8 (C15)"),
+    "C02": dict(
+        text="Coq theorems over the world model (bank, cw20-base, pair, factory, router; one Gallina handler per Rust arm): C02_payment, C02_settlement (a swap is priced on the "
+             "reserves net of the delivered offer and moves exactly the returned amount of the ask asset pair->receiver, nothing else; aliasing included), C02_delivered_execute / "
+             "C02_delivered_hook (named asset and amount = delivered asset and amount in the same transaction), C02_attached_funds, C02_hook_confusion_rejected.  Tied to the real "
+             "contracts in cw-multi-test by full-ledger snapshot comparison after every step of an exhaustive delivered x named x amount x funds x receiver matrix and random histories; "
+             "settlement monitor evaluated on the implementation's snapshots.  The defect found here was repaired in /repo (fix: C02).",
+        design_ref="DESIGN.md section 8 (C02), section 9"),
+    "C03": dict(
+        text="Coq theorems C03_step / C03_hist_abstract (over ANY finite sequence of pool steps the value reserve0*reserve1/supply^2 never decreases and the supply stays positive; induction), "
+             "C03_provision_is_step / C03_withdrawal_is_step / C03_swap_is_step (the premises of each step kind are what C05/C04/C01 prove about the real formulas), C03_refuted (known "
+             "finding KF-ceil-window).  PARTIAL: that every world transaction acts on every pair as pool steps is proved per operation (C02/C04/C05/C07 blocks), not as one theorem over run; "
+             "it is monitored on the real contracts after every step of multi-actor random, extreme and router histories (swaps in kf_c01 exempt and counted).",
+        design_ref="DESIGN.md section 8 (C03), section 9"),
+    "C04": dict(
+        text="Coq theorems C04_fn (r_i*a/T - r_i/10^18 - 1 < x_i <= r_i*a/T as cross-multiplied sandwich), C04_le_reserve, C04_total over the withdrawal arithmetic, and C04_structure / "
+             "C04_sys over the world model (holder receives x_i from the pair, supply and the pair's LP balance fall by exactly a, no other account changes).  Tied to the real contracts by "
+             "ledger snapshot comparison and the withdrawal monitor on random and extreme histories.",
+        design_ref="DESIGN.md section 8 (C04)"),
+    "C07": dict(
+        text="World-model frame/conservation theorems (Proofs/FrameProofs.v, see Props/C07.v for what is proved at the time of the run) and, on the real contracts, full-ledger snapshot "
+             "comparison with the model plus the frame / conservation / LP-supply monitor after every step of multi-actor histories with bystanders holding balances and allowances toward "
+             "every pair.",
+        design_ref="DESIGN.md section 8 (C07)"),
+    "C09": dict(
+        text="Coq theorems C09_helper (exact characterisation of assert_sent_native_token_balance), C09_swap / C09_provide / C09_exec_swap / C09_exec_provide (a successful provision or swap "
+             "naming a native amount had exactly that coin attached; execute-swap only for native offers), C09_failed_unchanged.  Tied to the real contracts by the exhaustive declared x attached "
+             "x extra-coin matrix for provide and both swap entry points, with ledger snapshot comparison and the funds monitor.",
+        design_ref="DESIGN.md section 8 (C09)"),
+    "C11": dict(
+        text="Coq theorems C11_min_receive (success with minimum m => recipient's final-asset balance grew by >= m over the state after the entry transfer), C11_assert_message, "
+             "C11_entry_native / C11_entry_cw20, C11_failed_unchanged over the world model.  Tied to the real router/pairs by 1..4-hop routes with minimums around the router's own quote, "
+             "perturbed pools, both entry points; ledger snapshot comparison and the minimum-receive monitor.",
+        design_ref="DESIGN.md section 8 (C11)"),
+    "C13": dict(
+        text="Coq theorems C13_rejects_empty, C13_single_dangling_output, C13_only_last_hop_pays_recipient, C13_hop_swaps_whole_balance (+ C12_forward for hop output = simulation).  "
+             "PARTIAL: the end-to-end equation 'recipient receives exactly the quote, router ends empty' is not one theorem; it is monitored on the real contracts (quote taken in the same "
+             "state just before each route) together with ledger snapshot comparison with the model.",
+        design_ref="DESIGN.md section 8 (C13)"),
+    "C14": dict(
+        text="Coq theorems, one per guarded entry point (C14_factory_* , C14_pair_update_decimals, C14_pair_withdraw_hook, C14_pair_swap_hook, C14_router_single_hop, C14_router_assert_min), "
+             "C14_rejected_unchanged, and the history-level C14_owner_changes_only_by_update_config / C14_owner_after_run (induction over run).  Tied to the real contracts by the exhaustive "
+             "execute-variant x caller-role x before/after-ownership-transfer matrix with ledger snapshot comparison and the authorisation monitor.",
+        design_ref="DESIGN.md section 8 (C14)"),
     "C16": dict(
         text="Coq theorems C16_sym, C16_inj (key equality => same unordered set over any prefix-free identifier universe), C16_refuted (KF-key-concat witness), "
              "C16_same_asset_rejected, C16_duplicate_rejected, C16_create_lookup and C16_hist (any history of creation attempts: created sets resolve in either order "
              "to their own record, all others to nothing) over the storage-level model of pair_key/PAIRS; tied to the real pair_key and PAIRS map on MockStorage.  "
-             "PARTIAL: record = pair self-description, true decimals and live-asset checks need the world model.",
+             "World level: C16_create_facts (owner, distinct assets, unregistered set, true decimals of registered natives / live cw20s, record = new pair's description), C16_world_duplicate_rejected, C16_world_lookup_either_order, C16_world_injective, C16_world_consistent over the world model, tied to the real factory by creation histories.",
         design_ref="DESIGN.md section 8 (C16), section 9"),
     "C19": dict(
         text="Coq theorems C19_page, C19_walk (for every sorted registry with records under their own keys and every page size >= 1 or absent, the client walk's pages "
@@ -63,11 +106,26 @@ CLAIMED = {
              "C19_default_page, C19_insert_sorted over the model of read_pairs/calc_range_start; tied to the real read_pairs on MockStorage with full walks and "
              "every-cursor pages.  The defect found here was repaired in /repo (fix: aa4409b).",
         design_ref="DESIGN.md section 8 (C19), section 9"),
+    "C17": dict(
+        text="Coq theorems C17_update (re-registration rewrites EVERY record of the unbounded registry in the denom's position and keeps RegOK, i.e. record = pair self-description; induction "
+             "over the registry), C17_first_registration, C17_consistent_init / _create / _frame.  Tied to the real factory/pairs by creation+registration histories with 1..14 pairs and the "
+             "decimals monitor.  The defect found here was repaired in /repo (fix: C17).",
+        design_ref="DESIGN.md section 8 (C17), section 9"),
+    "C18": dict(
+        text="Coq theorems C18_u256_roundtrip, C18_render_canonical, C18_int_parse_sound/_complete, C18_dec_roundtrip, C18_dec_canonical, C18_parse_sound, C18_json_uint/_dec, "
+             "C18_width_*, C18_decimal_* over the byte-level model of from_dec_str / Display / Decimal256::from_str / serde strings / limb conversions, for all values < 2^256 and all strings "
+             "(induction over digit lists).  Tied to the real types on the operand grid and on ALL strings over {0,1,9,.} up to length 5 (quick) / 7 (thorough) plus boundary numerals.",
+        design_ref="DESIGN.md section 8 (C18)"),
+    "C20": dict(
+        text="World-model liveness theorems for an entitled withdrawal (Proofs/LivenessProofs.v, see Props/C20.v for what is proved at the time of the run) built on C04_total; on the real "
+             "contracts every LP holder's withdrawals of {1, half, all, a tenth} after random and extreme histories (donations up to 2^119) are checked against the entitlement condition by "
+             "the liveness monitor, with ledger snapshot comparison with the model.",
+        design_ref="DESIGN.md section 8 (C20)"),
 }
 for _v in CLAIMED.values():
     _v.setdefault("technique", TECH)
 
-NOT_YET = "check not built yet in this development (work in progress; see DESIGN.md section 11 build order)"
+NOT_YET = "not claimed"
 
 
 def main():
